@@ -470,8 +470,17 @@ class Wrapper(Unit):
             st = unit._st
             F, B = st["F"], st["B"]
             where = f"{frame.fname}:{s.lineno}"
-            f = frame.env.get("f")
-            lst = frame.env.get("snapshots")
+            import ast as _ast
+            # the invariant speaks about the abstraction (the open handle, the list the body appends to, and every counter the body
+            # increments by one), found from the loop's own text: local names are incidental
+            files = [v for v in frame.env.values() if isinstance(v, Ref) and v.kind == "file"]
+            appended = sorted({n.func.value.id for b in s.body for n in _ast.walk(b)
+                               if isinstance(n, _ast.Call) and isinstance(n.func, _ast.Attribute) and n.func.attr == "append" and isinstance(n.func.value, _ast.Name)})
+            counters = sorted({n.target.id for b in s.body for n in _ast.walk(b)
+                               if isinstance(n, _ast.AugAssign) and isinstance(n.op, _ast.Add) and isinstance(n.target, _ast.Name)
+                               and isinstance(n.value, _ast.Constant) and n.value.value == 1})
+            f = files[0] if len(files) == 1 else None
+            lst = frame.env.get(appended[0]) if len(appended) == 1 else None
             ok_entry = isinstance(f, Ref) and f.kind == "file" and isinstance(lst, Ref) and lst.kind == "list"
             if not ok_entry:
                 raise sv.EngineError("wrapper loop: unexpected entry state")
@@ -480,11 +489,13 @@ class Wrapper(Unit):
                 c = stt.heap[f.sid]
                 stt.heap[f.sid] = Content("file", dict(c.data, pos=(sv.SV(B(sv.znum(k))) if not (sv.is_conc(k) and k == 0) else 0)), c.meta)
                 stt.heap[lst.sid] = Content("list", A.SeqVal(k, lambda i: st["frame_obj"](i)))
-                fr.env["nsnapshots"] = k
+                for cn in counters:
+                    fr.env[cn] = k
             # init: entry state is state(0)
             with use_state(state):
                 init_ok = sv.and_(len(lst.content) == 0 if not isinstance(lst.content, A.SeqVal) else False,
-                                  sv.cmp("==", frame.env.get("nsnapshots"), 0), sv.cmp("==", state.heap[f.sid].data["pos"], 0))
+                                  *([sv.cmp("==", frame.env.get(cn), 0) if frame.env.get(cn) is not None else False for cn in counters] +
+                                    [sv.cmp("==", state.heap[f.sid].data["pos"], 0)]))
             state.side.append(_SideGoal("loop-init(frame loop)", sv.zb(init_ok) if isinstance(init_ok, sv.SV) else z3.BoolVal(bool(init_ok)), state.all_assumptions(), where))
             # step: from state(k), 0 <= k < F, one body execution gives state(k+1) and does not leave the loop
             k = sv.fresh_int("k")
@@ -504,8 +515,8 @@ class Wrapper(Unit):
                         last = c2.fn(k)
                         tag = last.content.get("_frame") if isinstance(last, Ref) and last.kind == "obj" else None
                         goal = sv.zb(sv.and_(sv.cmp("==", c2.length, sv.add(k, 1)), sv.cmp("==", tag, k) if tag is not None else False,
-                                             sv.cmp("==", fr2.env.get("nsnapshots"), sv.add(k, 1)),
-                                             sv.cmp("==", st2.heap[f.sid].data["pos"], sv.SV(B(sv.znum(sv.add(k, 1)))))))
+                                             *([sv.cmp("==", fr2.env.get(cn), sv.add(k, 1)) for cn in counters] +
+                                               [sv.cmp("==", st2.heap[f.sid].data["pos"], sv.SV(B(sv.znum(sv.add(k, 1)))))])))
                         prev = sv.fresh_int("q")
                         older = (c2.base_fn if hasattr(c2, "base_fn") else c2.fn)(prev)      # an item before the appended one (prev < k below)
                         otag = older.content.get("_frame") if isinstance(older, Ref) and older.kind == "obj" else None
